@@ -1,0 +1,9 @@
+//go:build !verif
+
+package helpers
+
+import "time"
+
+// verifTick is the identity (see verif_tick.go, build tag `verif`): the render ticker's period is the
+// one written at the call site.  Inlined away.
+func verifTick(d time.Duration) time.Duration { return d }
